@@ -336,6 +336,7 @@ func report(p *Program, prop, tier string, seed int, runs []*funcRun, pin, verbo
 	var knownLines []string
 	discharged, claimed := 0, 0
 	groupMembers := map[string]int{}
+	detached := map[string]bool{}
 	var undecidedNew []string
 	extraDischarged := 0
 	baselineUndecided := map[string]bool{}
@@ -397,6 +398,16 @@ func report(p *Program, prop, tier string, seed int, runs []*funcRun, pin, verbo
 		reason := "no obligation of this group is generated any more (the contract does not attach: function changed shape, was renamed or removed)"
 		if e, ok := genErr[fn]; ok {
 			reason = "obligations of " + fn + " cannot be generated: " + e
+			if strings.Contains(e, "unknown identifier") {
+				// a local variable named in a loop invariant no longer exists (renamed or removed):
+				// the contract has to be updated; until then nothing is decided for this function,
+				// which is not evidence of a violation
+				if !detached[fn] {
+					detached[fn] = true
+					undecidedNew = append(undecidedNew, fn+": contract no longer attaches ("+e+"); property NOT decided for this function")
+				}
+				continue
+			}
 		}
 		claimed++
 		fails = append(fails, failure{g, reason, nil})
@@ -516,6 +527,7 @@ func report(p *Program, prop, tier string, seed int, runs []*funcRun, pin, verbo
 			"known_findings":           knownLines,
 			"vacuity_failures":         vacuous,
 			"generation_errors":        genErr,
+			"detached_functions":       sortedKeys(detached),
 			"samples":                  samples,
 			"obligation_results":       obls,
 			"bounded":                  []string{},
